@@ -2,16 +2,16 @@
 # usage: tools/try_benign.sh <dir with patch.diff> <CHECK-ID>...   - a behaviour-preserving change must keep every check silent
 set -u
 d="$1"; shift
-WT=/tmp/lead-wt
+WT=${WT:-/tmp/lead-wt}
 HEAD=$(git -C /repo rev-parse HEAD)
 git -C $WT checkout -q --detach $HEAD 2>/dev/null || git -C /repo worktree add --detach $WT HEAD -q
 git -C $WT checkout -q -- . ; git -C $WT clean -fdq
 cd $WT && git apply "$d/patch.diff" || { echo "PATCH DOES NOT APPLY"; exit 3; }
 cd /verif
 for c in "$@"; do
-  VERIF_REPO=$WT ./check $c --tier ${TIER:-quick} --procs ${PROCS:-12} > /tmp/ben-check-$c.log 2>&1; rc=$?
-  echo "check $c exit=$rc $(tail -1 /tmp/ben-check-$c.log | cut -c1-120)"
-  [ $rc != 0 ] && grep -v "^VIOLATION" /tmp/ben-check-$c.log | grep "^  \|BROKEN\|HARNESS" | head -4 | cut -c1-300
+  VERIF_OUT=$WT.out VERIF_REPO=$WT ./check $c --tier ${TIER:-quick} --procs ${PROCS:-12} > $WT.ben-$c.log 2>&1; rc=$?
+  echo "check $c exit=$rc $(tail -1 $WT.ben-$c.log | cut -c1-120)"
+  [ $rc != 0 ] && grep -v "^VIOLATION" $WT.ben-$c.log | grep "^  \|BROKEN\|HARNESS" | head -4 | cut -c1-300
 done
 git -C $WT checkout -q -- . ; git -C $WT clean -fdq
-cd /verif && git checkout -q -- evidence 2>/dev/null; rm -rf /verif/replays
+rm -rf $WT.out
